@@ -34,3 +34,27 @@ CHECKS["C15"] = {
     "mandatory_labels": {"all": ["seq-simple/wait-nonempty", "seq-priority/ties", "seq-priority/nextall",
                                  "conc/schedules", "conc/add-between-unlock-and-select", "conc/with-cancel"]},
 }
+
+CHECKS["C16"] = {
+    "level": "exploration",
+    "level_text": ("generated and bounded-exhaustive (preemption-bounded DFS) schedules over instrumented copies of the real "
+                   "tracker / notify / lifecycle / peer-cache sources, terminal-state oracle (deadlock, sleeping waiter with a stale view, "
+                   "exactness of returned peers); a search over the injected scheduling points, not a proof"),
+    "level_note": "trusts sync, context, testing/synctest; interleavings only at lock/unlock/channel points of the listed files; lock-order part is dynamic (lock pairs seen in explored schedules), not a static analysis",
+    "technique": "generated-schedule exploration (controlled scheduler, DFS + rapid choice vectors) with terminal-state invariants",
+    "rule": ("scenario = waiters x updater operation sequence (+ optional cancellation); case = one schedule (choice vector) executed on the real code; "
+             "non-trivial = schedule in which an updater step falls between a waiter's check (lock acquisition) and its sleep (select); "
+             "distinct = distinct (scenario, trace)"),
+    "assumptions": ["notify is used as its callers use it: state written and Broadcast called while holding L",
+                    "fake clock of synctest; peer-cache updates use distinct peers or advance the clock"],
+    "units": [
+        {"pkg": "internal/notify", "run": "^TestVerif_C16_", "inst": ["internal/notify/notify.go"], Q: {"timeout": 300}, T: {"timeout": 3000, "shards": 4}},
+        {"pkg": ".", "run": "^TestVerif_C16_", "inst": ["internal/notify/notify.go", "connectedness_manager.go"], Q: {"timeout": 300}, T: {"timeout": 3000, "shards": 4}},
+        {"pkg": "pkg/tinder", "run": "^TestVerif_C16_", "inst": ["internal/notify/notify.go", "pkg/tinder/peer_cache.go"], Q: {"timeout": 300}, T: {"timeout": 3000, "shards": 4}},
+        {"pkg": "pkg/lifecycle", "run": "^TestVerif_C16_", "inst": ["internal/notify/notify.go", "pkg/lifecycle/manager.go"], Q: {"timeout": 300}, T: {"timeout": 3000, "shards": 4}},
+    ],
+    "mandatory_labels": {"all": ["notify/dfs-schedules", "notify/update-between-check-and-sleep", "notify/with-cancel",
+                                 "lifecycle/dfs-schedules", "lifecycle/update-between-check-and-sleep", "lifecycle/with-cancel",
+                                 "tracker/dfs-schedules", "tracker/update-between-check-and-sleep", "tracker/with-cancel",
+                                 "peercache/dfs-schedules", "peercache/update-between-check-and-sleep", "peercache/with-cancel"]},
+}
